@@ -49,6 +49,9 @@ func c18Program(r *explore.Run, p *prog, allSM bool, st *c18Stats) {
 	if strings.HasPrefix(sc, "F2/") {
 		sc = "F2"
 	}
+	if strings.HasPrefix(sc, "F2L/") {
+		sc = "F2L"
+	}
 	sms := []dxil.ShaderModel{dxil.SM6_0}
 	if allSM {
 		sms = []dxil.ShaderModel{dxil.SM6_0, dxil.SM6_2, dxil.SM6_6}
@@ -129,9 +132,9 @@ func runC18() int {
 		stride = 1
 	}
 	sub := &wgen.Family{Name: "F1", Count: (f1.Count + stride - 1) / stride, At: func(i int) *wgen.Case { return f1.At(i * stride) }}
-	fams := []*wgen.Family{sub, wgen.F2(2, false)}
+	fams := []*wgen.Family{sub, wgen.F2(2, false), wgen.F2L(2, false)}
 	if r.Thorough() {
-		fams = append(fams, wgen.F2(4, true))
+		fams = append(fams, wgen.F2(4, true), wgen.F2L(3, true))
 	}
 	texts := append(append([]wgen.Micro{}, wgen.Micros...), corpus()...)
 	forEachProgram(r, fams, texts, func(p *prog) { c18Program(r, p, p.Case == nil || r.Thorough(), st) })
